@@ -332,9 +332,14 @@ K6_MGR = [((a, "CM.GoTie.IMgr." + t, d), "I_Mgr") for a, t, d in [
     ("tie_k6_CreateCircuit_factors", "create_factors", "between its two lock steps `CreateCircuit` is the sequentially tied body, run on the registry as the oracle left it"),
     ("tie_k6_oracles", "schedule_oracles_rely", "the oracles `thread_view` builds satisfy the rely condition (the ghost log is invisible)")]]
 
+K6_RUN = [((a, "CM.GoTie.IRun." + t, d), "I_Run") for a, t, d in [
+    ("tie_k6_run", "run_solo", "THE WHOLE `run` as written today — admission, bulkhead with its deferred decrement, the user's function (return or panic), the classification chain, the one run event, the transitions the outcome triggers — every atomic / mutex operation, every delivery and the function's execution preceded by an arbitrary move of the others, takes exactly the steps of the whole-call model's thread (Conc/Run): same state incl. gauge and event log, same oracle left, same trace, same way of ending (returned error / the user's panic with the slot released / waiting for the transition mutex)"),
+    ("tie_k6_run_OpenCircuit", "openCircuit_solo", "`openCircuit` as OpenCircuit runs it, in the same model"),
+    ("tie_k6_run_CloseCircuit", "closeCircuit_solo", "`close(forceClosed)` as CloseCircuit runs it")]]
+
 PROPS = {
     "C01": ("load shedding: who is admitted is decided by `allowNewRun` / `run`",
-            [C("IsOpen"), C("allowNewRun"), RUN] + NEVER + ERR_OPEN + K6_CALL + K6_TRANS + K6_CORE + RUN_C01 + RUN_EVENTS[:1] + RUN_VIEWS[:1] + RUN_LIVE + HFAC_CLOSER[:3] + HFAC_LAYERS[:1]),
+            [C("IsOpen"), C("allowNewRun"), RUN] + NEVER + ERR_OPEN + K6_CALL + K6_TRANS + K6_CORE + RUN_C01 + RUN_EVENTS[:1] + RUN_VIEWS[:1] + RUN_LIVE + HFAC_CLOSER[:3] + HFAC_LAYERS[:1] + K6_RUN[:1]),
     "C02": ("the built-in openers' method bodies, translated from today's opener.go / closers.go, are the model's functions",
             T("GoHOpener", evs("GoHOpener", "HOpener.onRun") + [
                 ("tie_GoHOpener_Opened", "CM.GoTie.GoHOpener.go_Opened_eq", "`Opened` resets both rolling counters"),
@@ -356,16 +361,16 @@ PROPS = {
                 ("tie_GoHCloser_ShouldClose", "CM.GoTie.GoHCloser.go_ShouldClose_eq", "`ShouldClose` compares the successes in a row with the required number")]) + TC +
             [C("close"), C("checkSuccess")] + CLOSER_CFG + K6_TC + TC_HOOK + HFAC_CLOSER + HFAC_CHAIN[:1] + HFAC_LAYERS[:1]),
     "C04": ("the gauges and limits: `throttleConcurrentCommands`, the deferred decrements in `run` / `fallback`, the published limits",
-            [C("throttleConcurrentCommands"), C("ConcurrentCommands"), C("ConcurrentFallbacks"), RUN, FALLBACK] + LIVECFG + ERR_LIMIT + ATOM_I64 + RUN_C04 + RUN_EVENTS[:1] + RUN_VIEWS[1:] + K6_FB + K6_CORE),
+            [C("throttleConcurrentCommands"), C("ConcurrentCommands"), C("ConcurrentFallbacks"), RUN, FALLBACK] + LIVECFG + ERR_LIMIT + ATOM_I64 + RUN_C04 + RUN_EVENTS[:1] + RUN_VIEWS[1:] + K6_FB + K6_CORE + K6_RUN[:1]),
     "C05": ("the classification chain of `run`",
-            [C("checkErrBadRequest"), C("checkErrTimeout"), C("checkErrInterrupt"), C("checkErrFailure"), C("checkSuccess"), RUN] + FAN_RUN + ALL + ERR_BAD + CTOR + RUN_EVENTS),
+            [C("checkErrBadRequest"), C("checkErrTimeout"), C("checkErrInterrupt"), C("checkErrFailure"), C("checkSuccess"), RUN] + FAN_RUN + ALL + ERR_BAD + CTOR + RUN_EVENTS + K6_RUN[:1]),
     "C06": ("fallback rules: `Execute` and `fallback`", [FALLBACK, EXECUTE, RUNENTRY] + FAN_FB + ERR_BAD + ERR_NOTBAD + K6_FB[:1] + K6_FB[2:]),
     "C07": ("contexts: the derived deadline context in `run`, the caller's context everywhere else", [RUN, FALLBACK, EXECUTE]),
     "C08": ("overrides and pass-through: `IsOpen`, `allowNewRun`, the transitions, `Execute`'s Disabled branch, the published flags",
             [C("IsOpen"), C("isEmptyOrNil"), C("allowNewRun"), C("openCircuit"), C("close"), C("attemptToOpen"), EXECUTE] + LIVECFG + SETCFG + ATOM_BOOL + CIRC_MISC),
     "C09": ("transitions and their notifications",
-            [C("IsOpen"), C("openCircuit"), C("close"), C("attemptToOpen"), C("OpenCircuit"), C("CloseCircuit"), C("checkSuccess"), C("checkErrFailure"), C("checkErrTimeout")] + FAN_CIRC + SETCFG + ATOM_BOOL + K6_TRANS + K6_CORE + CTOR + HFAC_CLOSER[2:3] + HFAC_OPENER[5:6]),
-    "C10": ("panics: the deferred calls of `run` and `fallback` run on every exit", [RUN, FALLBACK, EXECUTE] + CIRC_MISC + RUN_EVENTS[:1] + RUN_C04[3:4] + RUN_LIVE),
+            [C("IsOpen"), C("openCircuit"), C("close"), C("attemptToOpen"), C("OpenCircuit"), C("CloseCircuit"), C("checkSuccess"), C("checkErrFailure"), C("checkErrTimeout")] + FAN_CIRC + SETCFG + ATOM_BOOL + K6_TRANS + K6_CORE + CTOR + HFAC_CLOSER[2:3] + HFAC_OPENER[5:6] + K6_RUN),
+    "C10": ("panics: the deferred calls of `run` and `fallback` run on every exit", [RUN, FALLBACK, EXECUTE] + CIRC_MISC + RUN_EVENTS[:1] + RUN_C04[3:4] + RUN_LIVE + K6_RUN[:1]),
     "C11": ("reconfiguration: what each SetConfigThreadSafe writes (circuit, hystrix opener, hystrix closer, SLO tracker) — every setting, nothing else",
             SETCFG + LIVECFG + OPENER_CFG + CLOSER_CFG + SLO_CFG + VARS_C11),
     "C12": ("every timestamp is a reading of the configured clock: all translated functions of circuit.go",
@@ -413,7 +418,7 @@ UNITS = {"F_": "gocircuit", "All": "gocircuit", "T_GoHOpener": "gohopener", "T_G
          "T_GoFbStatsVar": ["gofbstatsvar", "gofbstats"], "T_GoRunStatsVar": ["gorunstatsvar", "gorunstats"], "T_GoSloVar": "goslovar",
          "T_GoRPVar": ["gorpvar", "gorpsnap", "gosdvar", "gosorteddurations"], "T_GoManagerVar": "gomanagervar", "T_GoExpvarToVal": "goexpvartoval",
          "T_GoFanRunVar": "gofanrunvar", "T_GoFanFbVar": ["gofanfbvar", "gofanrunvar"], "T_GoCircuitVar": "gocircuitvar",
-         "I_Core": [], "Props.RunAll": [], "I_Fb": "gofbi", "I_Mgr": ["gomgri", "gomgriall", "gomanager"], "I_RC": ["gorciclear", "gorciadv", "gorciops"], "I_TC": "gotci", "I_Call": "gocalli",
+         "I_Core": [], "Props.RunAll": [], "I_Fb": "gofbi", "I_Run": "goruni", "I_Mgr": ["gomgri", "gomgriall", "gomanager"], "I_RC": ["gorciclear", "gorciadv", "gorciops"], "I_TC": "gotci", "I_Call": "gocalli",
          "T_GoLiveLogic": ["goneveropens", "gonevercloses", "gohopenercfg", "gohclosercfg", "goslocfg"]}
 
 def units_of(prop):
